@@ -64,6 +64,10 @@ Definition is_in_or_chaos (r : rr) : bool := (rr_class r =? ARES_CLASS_IN) || (r
 (* (int) conversion of a 32-bit unsigned value *)
 Definition to_int (z : Z) : Z := swrap 32 z.
 
+(* ARES_TTL_TO_INT (fixes/C18-ttl-int-clamp.patch): the legacy structures carry a TTL as int;
+   RFC 2181 section 8: a TTL with the most significant bit set counts as zero *)
+Definition ttl_to_int (z : Z) : Z := if z >? 2147483647 then 0 else z.
+
 (* ares_strcaseeq on C strings *)
 Definition lower (c : Z) : Z := if (65 <=? c) && (c <=? 90) then c + 32 else c.
 Fixpoint strcaseeq (a b : str) : bool :=
